@@ -215,7 +215,11 @@ class Engine:
                 self.xsite(p, "IndexError", "index", ("sub", a, idx), e.lineno, fr)
             return ("sub", a, idx)
         if isinstance(e, ast.IfExp):
-            return ("ite", self.ev(e.test, p, fr), self.ev(e.body, p, fr), self.ev(e.orelse, p, fr))
+            t_ = self.ev(e.test, p, fr)
+            if isinstance(t_, tuple) and len(t_) == 2 and t_[0] == "c" and isinstance(t_[1], (bool, int, str, bytes, type(None))):
+                # the test is a constant on this path (e.g. a flag local set a few statements earlier): the conditional expression is the chosen arm
+                return self.ev(e.body if t_[1] else e.orelse, p, fr)
+            return ("ite", t_, self.ev(e.body, p, fr), self.ev(e.orelse, p, fr))
         if isinstance(e, ast.Call):
             return self.call_expr(e, p, fr)
         if isinstance(e, (ast.Tuple, ast.List)):
